@@ -33,6 +33,9 @@ var specimens = []specimen{
 	{"str-phone", "13812345678", []ruleV{{"phone", false}, {"int", false}, {"ints", false}, {"to=11~11", false}, {"eq=10", true}, {"idcard", true}, {"float", true}}},
 	{"str-cjk", "中文字", []ruleV{{"to=3~3", false}, {"eq=3", false}, {"gt=3", true}, {"le=2", true}, {"prefix=中", false}, {"eq=9", true}}},
 	{"str-mail", "a@b.cn", []ruleV{{"email", false}, {"phone", true}, {"include=(@)", false}, {"lt=6", true}}},
+	{"str-blanks", " ab ", []ruleV{{"eq=4", false}, {"eq=2", true}, {"to=4~4", false}, {"to=1~3", true}, {"le=3", true}, {"ge=4", false}, {"lt=4", true}, {"noeq=4", true}}},
+	{"str-tab", "ab\t", []ruleV{{"eq=3", false}, {"le=2", true}, {"gt=2", false}}},
+	{"f32-0.1", float32(0.1), []ruleV{{"in=(0.1)", false}, {"in=(0.2/0.3)", true}, {"le=1", false}, {"ge=1", true}, {"float", false}, {"lt=0", true}}},
 	{"int-7", 7, []ruleV{{"ge=5", false}, {"ge=9", true}, {"le=9", false}, {"le=5", true}, {"gt=7", true}, {"lt=7", true}, {"lt=8", false},
 		{"eq=7", false}, {"noeq=7", true}, {"in=(7/8)", false}, {"in=(1/2)", true}, {"int", false}, {"float", true}, {"to=-3~7", false}, {"oto=-3~7", true}, {"to=9~5", true}, {"oto=7~4", true}, {"in=('7'/8)", false}}},
 	{"int8-7", int8(7), []ruleV{{"ge=5", false}, {"gt=7", true}, {"eq=7", false}, {"le=5", true}}},
@@ -74,10 +77,15 @@ func newWgen(r *gal.Rng) *wgen { return &wgen{r: r, feat: map[string]bool{}} }
 
 func (g *wgen) mark() string {
 	g.marker++
-	if g.r.Chance(15) {
-		return fmt.Sprintf("标%d", g.marker)
+	// a message may end in blanks or semicolons (bytes of the clause separator): shown verbatim, never trimmed
+	tail := ""
+	if g.r.Chance(12) {
+		tail = g.r.Pick([]string{";", " ", " ;", ";;", "  "})
 	}
-	return fmt.Sprintf("M%d", g.marker)
+	if g.r.Chance(15) {
+		return fmt.Sprintf("标%d%s", g.marker, tail)
+	}
+	return fmt.Sprintf("M%d%s", g.marker, tail)
 }
 
 func joinPath(structName, field string) string {
